@@ -43,3 +43,41 @@ package model
 //@   ensures [bag_of_declared_outputs] bagOf(defs) == outDefBag(t.Outputs, t.BinOutput)
 //@ loop #1
 //@   invariant [prefix] bagOf(definitions) == defBagArr(arr(ranged()), rangeindex + 1)
+
+// BuildNode interface implementations (C12, C20)
+
+//@ func (*Target).GetLabel(t) (l)
+//@   pure
+//@   ensures [field] l == t.Label
+
+//@ func (*Alias).GetLabel(a) (l)
+//@   pure
+//@   ensures [field] l == a.Label
+
+//@ func (*Target).GetIsSelected(t) (r)
+//@   pure
+//@   ensures [field] r == t.IsSelected
+
+//@ func (*Alias).GetIsSelected(a) (r)
+//@   pure
+//@   ensures [field] r == a.IsSelected
+
+//@ func (*Target).Select(t) ()
+//@   modifies t.IsSelected
+//@   ensures [selected] t.IsSelected
+
+//@ func (*Alias).Select(a) ()
+//@   modifies a.IsSelected
+//@   ensures [selected] a.IsSelected
+
+//@ func (*Target).GetType(t) (r)
+//@   pure
+//@   ensures [target] r == TargetNode
+
+//@ func (*Alias).GetType(a) (r)
+//@   pure
+//@   ensures [alias] r == AliasNode
+
+//@ func (*Target).IsTest(t) (r)
+//@   pure
+//@   ensures [suffix] r <==> hasSuffix(t.Label.Name, "test")
